@@ -142,7 +142,7 @@ PROPS = {
     ),
     'C02': dict(
         level='proof',
-        contracts=['C02', 'C20'],
+        contracts=['C02', 'C20', 'glue'],
         frames=[],
         technique='deductive: VCs from the real AST of Ombott.to_route, PropsMixin.method, Route.__getitem__, RadiRouter.resolve and '
                   'Ombott.handler (modular on the lookup contract of RadiDict.get) and of the Route method-table mutators; bounded exhaustive method-table check as replay harness',
@@ -152,8 +152,9 @@ PROPS = {
                     'request method is upper-cased.',
         level_text='Proof of the dispatch order, the 404/405 split and the Allow value for all verbs and method tables, relative to the '
                    'lookup contract of the radix tree (which is C01 and bounded). The method-table mutators of Route (set_method, _set_methods, add_method, '
-                   '_raise_if_registered, remove_method) are under contract too (exact effect on the table, refusal before any write); the '
-                   'registration-side upper-casing in RadiRouter.add and the app-level wrappers are decided by the bounded check only.',
+                   '_raise_if_registered, remove_method) are under contract too (exact effect on the table, refusal before any write), and so are the '
+                   'registration-side upper-casing in RadiRouter.add, RadiRouter._add and the app-level wrappers (Ombott.add_route, Ombott.route '
+                   'and its decorator: every argument reaches the router in its place; defaults GET / unnamed / no overwrite).',
         level_note='Assumes RadiDict.get returns a falsy route iff no rule matches (C01, bounded); sorted/join uninterpreted; '
                    'Route.__getitem__ checked for candidate lists of length 1..3 (complete for the callers).',
         trusted_base=['lookup contract of RadiDict.get (C01, bounded)'],
@@ -235,7 +236,7 @@ PROPS = {
         trusted_base=['heap model of getattr/setattr/delattr', 'threading.local semantics'],
     ),
     'C11': dict(
-        level='other', contracts=['radix', 'C02', 'C01'], frames=[],
+        level='other', contracts=['radix', 'C02', 'C01', 'glue'], frames=[],
         technique='bounded model-based contract check: every edit history up to a depth bound (state-merged) compared with a freshly '
                   'built router on all probe paths, name/rule lookups and fired hooks',
         explanation='BOUNDED edit histories over seven rule universes (incl. literal children directly after a filtered wildcard); see coverage.bounded.',
@@ -243,8 +244,11 @@ PROPS = {
                    'place (_make_node, _split, _try_merge, _mount) keep the abstract content of the tree (keys concatenate to the old key, '
                    'every slot and child carried over, merge only without data/hooks and never across a wildcard, index string matches the '
                    'children, one wildcard child kept last); make_filter keeps one handler object per filter spec (the identity the router '
-                   'compares); a refused method registration changes nothing (method-table mutators). The algorithms that walk the tree '
-                   '(get, _match, _set, remove) and the index dictionaries of RadiRouter are not under contract.',
+                   'compares); a refused method registration changes nothing (method-table mutators); the index dictionaries of RadiRouter change '
+                   'together with the tree (RadiRouter._add, remove, _remove_named_routers, add_hook, remove_hook, hook_installer, get_hook, '
+                   'to_pattern: each asks the tree exactly once with the pattern parse_rule gives and updates routes / named_routes / hooks '
+                   'under that same pattern, or touches nothing), and the application-level wrappers pass every argument through. The '
+                   'algorithms that walk the tree (RadiDict.get, _match, _set, remove) are not under contract.',
         level_note='Depth bound and universes are stated in coverage.bounded.bound.',
     ),
     'C01': dict(
